@@ -41,6 +41,35 @@ fn clip(v: u64) -> i64 {
     }
 }
 
+/// The submission index array as the library's REAL set-up leaves it for a ring of this size and these flags
+/// (`setup_io_uring` on the real kernel, read back through the hook accessor).  The simulated kernel consumes
+/// `sqes + array[position & mask] * entry size` exactly like the real one, so a wrong array yields a wrong or
+/// out-of-ring entry.  None: the kernel refused the set-up (then the harness' own identity map is used and says so).
+fn real_index_array(ns: u32, flags: u32) -> Option<Vec<u32>> {
+    static mut CACHE: Option<std::collections::HashMap<(u32, u32), Option<Vec<u32>>>> = None;
+    #[allow(static_mut_refs)]
+    let cache = unsafe { CACHE.get_or_insert_with(Default::default) };
+    let key = (ns, flags & (FLAG_SQE128 | FLAG_CQE32));
+    cache
+        .entry(key)
+        .or_insert_with(|| {
+            let mut pf = IoUringParamFlags::empty();
+            if flags & FLAG_SQE128 != 0 {
+                pf = pf | IoUringParamFlags::IORING_SETUP_SQE128;
+            }
+            if flags & FLAG_CQE32 != 0 {
+                pf = pf | IoUringParamFlags::IORING_SETUP_CQE32;
+            }
+            let ring = rusl::io_uring::setup_io_uring(ns, pf, 0, 0).ok()?;
+            let (se, _, _, _) = ring.verif_ring_geometry();
+            if se != ns {
+                return None;
+            }
+            Some((0..ns).map(|i| unsafe { ring.verif_sq_index_array(i) }).collect())
+        })
+        .clone()
+}
+
 struct Sim {
     mem: *mut u8,
     layout: Layout,
@@ -99,9 +128,10 @@ impl Sim {
             (*sq_ktail).store(base.wrapping_add(sq0), Ordering::Relaxed);
             (*cq_khead).store(base.wrapping_add(cq0), Ordering::Relaxed);
             (*cq_ktail).store(base.wrapping_add(cq0), Ordering::Relaxed);
-            // identity map like setup_io_uring does
+            // the index array: what the library's real set-up writes (identity if the kernel has no io_uring here)
+            let real = real_index_array(ns, flags);
             for i in 0..ns {
-                (*sq_array.add(i as usize)).store(i, Ordering::Relaxed);
+                (*sq_array.add(i as usize)).store(real.as_ref().map_or(i, |a| a[i as usize]), Ordering::Relaxed);
             }
             // "never written" marker in every entry
             for i in 0..ns as usize {
@@ -195,6 +225,12 @@ impl Sim {
                 .cast::<u64>()
                 .read_volatile()
         }
+    }
+    /// the index array as the simulated kernel sees it (for the reset event)
+    fn describe(&self, ev: &mut Value) {
+        let arr: Vec<i64> = (0..self.ns).map(|i| i64::from(unsafe { (*self.sq_array.add(i as usize)).load(Ordering::Relaxed) }).min(0x7fff_fff0)).collect();
+        ev["arr"] = json!(arr);
+        ev["arr_from_real_setup"] = json!(real_index_array(self.ns, (if self.sshift == 1 { FLAG_SQE128 } else { 0 }) | (if self.cshift == 1 { FLAG_CQE32 } else { 0 })).is_some());
     }
     /// observed state after a step
     fn state(&self, ev: &mut Value) {
@@ -414,6 +450,7 @@ fn run_plan(path: &str, out: &mut Out) {
         let mut sim = Sim::new(ns, nc, flags, h, sq0, cq0);
         let mut reset = json!({"ev":"reset","run":p["run"],"ns":ns,"nc":nc,"flags":flags,"h":h,"sq0":sq0,"cq0":cq0,"build":build()});
         sim.state(&mut reset);
+        sim.describe(&mut reset);
         out.ev(&reset);
         for (k, s) in p["steps"].as_array().unwrap().iter().enumerate() {
             let op = s[0].as_str().unwrap();
@@ -465,6 +502,7 @@ fn run_random(runs: u64, steps: u64, seed: u64, gap_permille: u64, max_log2: u64
         let mut sim = Sim::new(ns, nc, flags, h, sq0, cq0);
         let mut reset = json!({"ev":"reset","run":run,"ns":ns,"nc":nc,"flags":flags,"h":h,"sq0":sq0,"cq0":cq0,"build":build(),"gaps":gaps,"seed":seed});
         sim.state(&mut reset);
+        sim.describe(&mut reset);
         out.ev(&reset);
         // phases bias the rings towards full / empty so that both boundaries are visited
         let mut bias = 0;
@@ -567,6 +605,7 @@ fn explore(ns: u32, nc: u32, flags: u32, h: u32, sq0: u32, cq0: u32, depth: usiz
             *run += 1;
             let fresh = Sim::new(ns, nc, flags, h, sq0, cq0);
             fresh.state(&mut reset);
+            fresh.describe(&mut reset);
             out.ev(&reset);
             for ev in &evs {
                 out.ev(ev);
